@@ -8,6 +8,7 @@ import (
 	"fmt"
 	"math/rand"
 	"reflect"
+	"sync"
 
 	"github.com/lab5e/lospan/pkg/cmac"
 	"github.com/lab5e/lospan/pkg/protocol"
@@ -59,7 +60,63 @@ func cmacCase(w *Writer, key0, msg []byte, spare int, fill byte) {
 	}
 }
 
+// "pure": several callers at once, each with its own key and messages, get what they get alone (a scratch buffer shared
+// between calls would show here and nowhere else)
+func cmacConcurrent(rng *rand.Rand, w *Writer) {
+	const ngo, nmsg, rounds = 8, 24, 40
+	type job struct {
+		key, msg, want []byte
+	}
+	jobs := make([][]job, ngo)
+	for g := range jobs {
+		key := genKey(rng)
+		for i := 0; i < nmsg; i++ {
+			msg := randBytes(rng, []int{0, 1, 15, 16, 17, 32, 40, 64}[rng.Intn(8)])
+			want, err := cmac.AESCMAC(key, msg) // alone
+			if err != nil {
+				return
+			}
+			jobs[g] = append(jobs[g], job{key, msg, want})
+		}
+	}
+	bad := make(chan string, ngo)
+	start := make(chan struct{})
+	var wg sync.WaitGroup
+	for g := 0; g < ngo; g++ {
+		wg.Add(1)
+		go func(g int) {
+			defer wg.Done()
+			<-start
+			for r := 0; r < rounds; r++ {
+				for _, j := range jobs[g] {
+					got, err := cmac.AESCMAC(j.key, j.msg)
+					if err != nil || !bytes.Equal(got, j.want) {
+						select {
+						case bad <- fmt.Sprintf("caller-%d-got-%s-alone-%s", g, hx(got), hx(j.want)):
+						default:
+						}
+						return
+					}
+				}
+			}
+		}(g)
+	}
+	close(start)
+	wg.Wait()
+	obs := "ok"
+	select {
+	case b := <-bad:
+		obs = b
+	default:
+	}
+	w.Case("cmacconc", []string{"k=callers"}, obs)
+	w.Count("cmac.concurrent-callers")
+}
+
 func suiteC14(rng *rand.Rand, tier string, w *Writer) {
+	for i := 0; i < 4; i++ {
+		cmacConcurrent(rng, w)
+	}
 	// concrete AES of the model vs crypto/aes
 	nAES := 40
 	for i := 0; i < nAES; i++ {
